@@ -2,6 +2,8 @@
 From Coq Require Import ZArith List.
 From NTT Require Import Functors Algebra Inverse NTTInst NTTClosed NTTTables Shards Circuit CircuitTables.
 From NTT.gen Require Import Params.
+From NTT Require GenInitEq RoundTripSrc.
+From NTT.gen Require GenLoop.
 Local Open Scope Z_scope.
 
 (* the fifth conjunct of transform_ok: for every row, every degree 2..maxdeg, all inputs of the right length,
@@ -44,3 +46,55 @@ Example C01_nonvacuous :
   ntt_inv 16 15361 4989 15331 9 2 (ntt_mul 15361 2 (ntt_fwd 16 15361 4989 9 2 a) (ntt_fwd 16 15361 4989 9 2 b))
   = 2135 :: 605 :: 6806 :: 3629 :: 43 :: 373 :: 4300 :: 6861 :: nil.
 Proof. vm_compute. reflexivity. Qed.
+
+(* THE PRODUCT ON THE TRANSLATED SOURCE.  With core::initialize(), core::ntt_pow_phi and core::invntt_pow_invphi translated from the source on this
+   run (every build; the expression-template statement of the two transforms with the meaning fixed in ExprSem.v): transform both factors,
+   multiply the evaluation forms row by row (ntt_mul: what the statement c = a * b stores -- its evaluation by the library is C07/C03), transform
+   back: the negacyclic product of the two polynomials in every modulus (nega_spec: C01_spec_is_negacyclic), any number of moduli, any
+   degree 2^4 .. maxdeg, any canonical factors, table rows as C06 proves them.  Composition of C02_source_initialize, C02_source_ntt_pow_phi,
+   C02_source_invntt_pow_invphi with C01_product_open. *)
+Theorem C01_source_product_u16 : forall P roots invk k0 nm fuel ph0 sph0 ipd0 ipi0 sipi0 om0 iom0 a b y0, (4 <= S k0 <= 9)%nat -> (S k0 < fuel)%nat -> Z.of_nat nm < 2 ^ 28 ->
+  let n := (2 ^ S k0)%nat in let row := fun (d : list Z) c => List.firstn n (List.skipn (c * n) d) in
+  length ph0 = (nm * n)%nat -> length sph0 = (nm * n)%nat -> length ipd0 = nm -> length ipi0 = (nm * n)%nat -> length sipi0 = (nm * n)%nat -> length om0 = (nm * (n * 2))%nat -> length iom0 = (nm * (n * 2))%nat ->
+  let canon := fun d => length d = (nm * n)%nat /\ forall c, (c < nm)%nat -> List.Forall (fun v => 0 <= v < List.nth c P 0) (row d c) in
+  canon a -> canon b -> length y0 = S n ->
+  (forall c, (c < nm)%nat -> GenInitEq.rowok16 P roots invk c /\ (List.nth c roots 0 ^ (2 ^ Z.of_nat 9)) mod List.nth c P 0 = List.nth c P 0 - 1 /\ (List.nth c invk 0 * 2 ^ Z.of_nat 9) mod List.nth c P 0 = 1) ->
+  let mul := fun A B => List.concat (List.map (fun c => ntt_mul (List.nth c P 0) k0 (row A c) (row B c)) (List.seq 0 nm)) in
+  let spec := List.concat (List.map (fun c => nega_spec (List.nth c P 0) k0 (row a c) (row b c)) (List.seq 0 nm)) in
+  let pr := fun (fwd : list Z -> option (list Z)) (invf : list Z -> option (list Z * list Z)) => exists A B yf, fwd a = Some A /\ fwd b = Some B /\ invf (mul A B) = Some (spec, yf) in
+  exists ph sph ipd ipi sipi om iom, GenLoop.gen_initialize_u16 fuel (Z.of_nat n) om0 iom0 ph0 sph0 ipd0 ipi0 sipi0 (Z.of_nat nm) roots P invk = Some (ph, sph, ipd, ipi, sipi, om, iom) /\
+    pr (fun d => GenLoop.gen_ntt_pow_phi_serial_u16 (Z.of_nat n) (Z.of_nat nm) d ph sph om P) (fun d => GenLoop.gen_invntt_pow_invphi_serial_u16 fuel (Z.of_nat n) (Z.of_nat nm) d iom ipd ipi sipi P y0) /\
+    pr (fun d => GenLoop.gen_ntt_pow_phi_sse_u16 (Z.of_nat n) (Z.of_nat nm) d ph sph om P) (fun d => GenLoop.gen_invntt_pow_invphi_sse_u16 fuel (Z.of_nat n) (Z.of_nat nm) d iom ipd ipi sipi P y0) /\
+    pr (fun d => GenLoop.gen_ntt_pow_phi_avx2_u16 (Z.of_nat n) (Z.of_nat nm) d ph sph om P) (fun d => GenLoop.gen_invntt_pow_invphi_avx2_u16 fuel (Z.of_nat n) (Z.of_nat nm) d iom ipd ipi sipi P y0).
+Proof. exact (fun P roots invk k0 nm fuel ph0 sph0 ipd0 ipi0 sipi0 om0 iom0 a b y0 Hk Hf Hnm L1 L2 L3 L4 L5 L6 L7 Ha Hb Hy HR => RoundTripSrc.source_product_u16 P roots invk k0 nm fuel ph0 sph0 ipd0 ipi0 sipi0 om0 iom0 a b y0 (proj1 Hk) Hf Hnm L1 L2 L3 L4 L5 L6 L7 Ha Hb Hy (proj2 Hk) HR). Qed.
+Print Assumptions C01_source_product_u16.
+Theorem C01_source_product_u32 : forall P roots invk k0 nm fuel ph0 sph0 ipd0 ipi0 sipi0 om0 iom0 a b y0, (4 <= S k0 <= 15)%nat -> (S k0 < fuel)%nat -> Z.of_nat nm < 2 ^ 28 ->
+  let n := (2 ^ S k0)%nat in let row := fun (d : list Z) c => List.firstn n (List.skipn (c * n) d) in
+  length ph0 = (nm * n)%nat -> length sph0 = (nm * n)%nat -> length ipd0 = nm -> length ipi0 = (nm * n)%nat -> length sipi0 = (nm * n)%nat -> length om0 = (nm * (n * 2))%nat -> length iom0 = (nm * (n * 2))%nat ->
+  let canon := fun d => length d = (nm * n)%nat /\ forall c, (c < nm)%nat -> List.Forall (fun v => 0 <= v < List.nth c P 0) (row d c) in
+  canon a -> canon b -> length y0 = S n ->
+  (forall c, (c < nm)%nat -> GenInitEq.rowok32 P roots invk c /\ (List.nth c roots 0 ^ (2 ^ Z.of_nat 15)) mod List.nth c P 0 = List.nth c P 0 - 1 /\ (List.nth c invk 0 * 2 ^ Z.of_nat 15) mod List.nth c P 0 = 1) ->
+  let mul := fun A B => List.concat (List.map (fun c => ntt_mul (List.nth c P 0) k0 (row A c) (row B c)) (List.seq 0 nm)) in
+  let spec := List.concat (List.map (fun c => nega_spec (List.nth c P 0) k0 (row a c) (row b c)) (List.seq 0 nm)) in
+  let pr := fun (fwd : list Z -> option (list Z)) (invf : list Z -> option (list Z * list Z)) => exists A B yf, fwd a = Some A /\ fwd b = Some B /\ invf (mul A B) = Some (spec, yf) in
+  exists ph sph ipd ipi sipi om iom, GenLoop.gen_initialize_u32 fuel (Z.of_nat n) om0 iom0 ph0 sph0 ipd0 ipi0 sipi0 (Z.of_nat nm) roots P invk = Some (ph, sph, ipd, ipi, sipi, om, iom) /\
+    pr (fun d => GenLoop.gen_ntt_pow_phi_serial_u32 (Z.of_nat n) (Z.of_nat nm) d ph sph om P) (fun d => GenLoop.gen_invntt_pow_invphi_serial_u32 fuel (Z.of_nat n) (Z.of_nat nm) d iom ipd ipi sipi P y0) /\
+    pr (fun d => GenLoop.gen_ntt_pow_phi_sse_u32 (Z.of_nat n) (Z.of_nat nm) d ph sph om P) (fun d => GenLoop.gen_invntt_pow_invphi_sse_u32 fuel (Z.of_nat n) (Z.of_nat nm) d iom ipd ipi sipi P y0) /\
+    pr (fun d => GenLoop.gen_ntt_pow_phi_avx2_u32 (Z.of_nat n) (Z.of_nat nm) d ph sph om P) (fun d => GenLoop.gen_invntt_pow_invphi_avx2_u32 fuel (Z.of_nat n) (Z.of_nat nm) d iom ipd ipi sipi P y0).
+Proof. exact (fun P roots invk k0 nm fuel ph0 sph0 ipd0 ipi0 sipi0 om0 iom0 a b y0 Hk Hf Hnm L1 L2 L3 L4 L5 L6 L7 Ha Hb Hy HR => RoundTripSrc.source_product_u32 P roots invk k0 nm fuel ph0 sph0 ipd0 ipi0 sipi0 om0 iom0 a b y0 (proj1 Hk) Hf Hnm L1 L2 L3 L4 L5 L6 L7 Ha Hb Hy (proj2 Hk) HR). Qed.
+Print Assumptions C01_source_product_u32.
+Theorem C01_source_product_u64 : forall P Pn roots invk k0 nm fuel ph0 sph0 ipd0 ipi0 sipi0 om0 iom0 a b y0, (4 <= S k0 <= 20)%nat -> (S k0 < fuel)%nat -> Z.of_nat nm < 2 ^ 28 ->
+  let n := (2 ^ S k0)%nat in let row := fun (d : list Z) c => List.firstn n (List.skipn (c * n) d) in
+  length ph0 = (nm * n)%nat -> length sph0 = (nm * n)%nat -> length ipd0 = nm -> length ipi0 = (nm * n)%nat -> length sipi0 = (nm * n)%nat -> length om0 = (nm * (n * 2))%nat -> length iom0 = (nm * (n * 2))%nat ->
+  let canon := fun d => length d = (nm * n)%nat /\ forall c, (c < nm)%nat -> List.Forall (fun v => 0 <= v < List.nth c P 0) (row d c) in
+  canon a -> canon b -> length y0 = S n ->
+  (forall c, (c < nm)%nat -> GenInitEq.rowok64 P Pn roots invk c /\ (List.nth c roots 0 ^ (2 ^ Z.of_nat 20)) mod List.nth c P 0 = List.nth c P 0 - 1 /\ (List.nth c invk 0 * 2 ^ Z.of_nat 20) mod List.nth c P 0 = 1) ->
+  let mul := fun A B => List.concat (List.map (fun c => ntt_mul (List.nth c P 0) k0 (row A c) (row B c)) (List.seq 0 nm)) in
+  let spec := List.concat (List.map (fun c => nega_spec (List.nth c P 0) k0 (row a c) (row b c)) (List.seq 0 nm)) in
+  let pr := fun (fwd : list Z -> option (list Z)) (invf : list Z -> option (list Z * list Z)) => exists A B yf, fwd a = Some A /\ fwd b = Some B /\ invf (mul A B) = Some (spec, yf) in
+  exists ph sph ipd ipi sipi om iom, GenLoop.gen_initialize_u64 fuel (Z.of_nat n) om0 iom0 ph0 sph0 ipd0 ipi0 sipi0 (Z.of_nat nm) roots P Pn invk = Some (ph, sph, ipd, ipi, sipi, om, iom) /\
+    pr (fun d => GenLoop.gen_ntt_pow_phi_serial_u64 (Z.of_nat n) (Z.of_nat nm) d ph sph om P) (fun d => GenLoop.gen_invntt_pow_invphi_serial_u64 fuel (Z.of_nat n) (Z.of_nat nm) d iom ipd ipi sipi P y0) /\
+    pr (fun d => GenLoop.gen_ntt_pow_phi_sse_u64 (Z.of_nat n) (Z.of_nat nm) d ph sph om P) (fun d => GenLoop.gen_invntt_pow_invphi_sse_u64 fuel (Z.of_nat n) (Z.of_nat nm) d iom ipd ipi sipi P y0) /\
+    pr (fun d => GenLoop.gen_ntt_pow_phi_avx2_u64 (Z.of_nat n) (Z.of_nat nm) d ph sph om P) (fun d => GenLoop.gen_invntt_pow_invphi_avx2_u64 fuel (Z.of_nat n) (Z.of_nat nm) d iom ipd ipi sipi P y0).
+Proof. exact (fun P Pn roots invk k0 nm fuel ph0 sph0 ipd0 ipi0 sipi0 om0 iom0 a b y0 Hk Hf Hnm L1 L2 L3 L4 L5 L6 L7 Ha Hb Hy HR => RoundTripSrc.source_product_u64 P roots invk k0 nm fuel ph0 sph0 ipd0 ipi0 sipi0 om0 iom0 a b y0 (proj1 Hk) Hf Hnm L1 L2 L3 L4 L5 L6 L7 Ha Hb Hy Pn (proj2 Hk) HR). Qed.
+Print Assumptions C01_source_product_u64.
